@@ -159,6 +159,8 @@ def main(argv=None):
             results += res
             metas.append(meta)
     results.sort(key=lambda r: r["name"])
+    signatures = {_base(r["name"]): r for r in results if r["kind"] == "signature"}
+    results = [r for r in results if r["kind"] != "signature"]
 
     # ---- classify ---------------------------------------------------------------------------
     errors = [r for r in results if r["verdict"] == "error"]
@@ -166,6 +168,7 @@ def main(argv=None):
     unknown = [r for r in results if r["verdict"] == "unknown"]
     proved = [r for r in results if r["verdict"] == "proved"]
     n_obl = len(results) - len(errors)
+    known_names = {f["obligation"] for f in load_known(pid)[0]}
 
     # ---- vacuity guard: obligation names must match the committed lock -----------------------
     lock_path = os.path.join(ROOT, "locks", f"{pid}.{tier}.lock")
@@ -200,8 +203,11 @@ def main(argv=None):
         r = rs[0]
         kf = next((f for f in known if f["obligation"] == base), None)
         if kf is not None:
-            known_hits.append((kf, r))
-            continue
+            sig = kf.get("signature")
+            if sig is None or (sig in signatures and signatures[sig]["verdict"] == "proved"):
+                known_hits.append((kf, r))
+                continue
+            # the obligation of a recorded finding fails, but not in the recorded way: a new violation
         model, big = small_model(r)
         rep = dict(error=f"model needs extents {big}; not replayed natively") if big else native_replay(unit, r["cfg"], model)
         confirmed = False
@@ -232,7 +238,8 @@ def main(argv=None):
     ev = dict(
         property_id=pid, tier=tier, seed=seed, level="proof",
         coverage=dict(
-            obligations=n_obl, discharged=discharged,
+            obligations=n_obl - len({_base(r["name"]) for k, r in known_hits}), discharged=discharged,
+            obligations_failing_as_recorded_known_findings=len(known_hits),
             checker_cmd=f"./check {pid} --tier {tier}",
             trusted_base=STANDING_ASSUMPTIONS + sorted({a for u in contract.UNITS.values() if pid in u["props"] for a in u.get("assumes", ())}),
             backends=backends,
